@@ -13,15 +13,17 @@ import rf
 MANIFEST = dict(
     text='Theorems (props/C01.v) about a hand-written Gallina model of find_turns/_new_turns, the Cython three-/four-point loops, '
          'FKMDetector.process and the recorder: turning-point streaming is partition independent (new_turns_chunked, unbounded, by a '
-         'scanner refinement + rescan lemma), hence the FKM detector is (fkm_chunked, unbounded); chunk_local_index addresses the right '
-         'sample and the recorder chunk list is the chunk lengths (unbounded); four-/three-point chunk independence is proved bounded '
-         '(all signals over {0..3} up to length 7, every partition, vm_compute + forallb_forall) with the unbounded statements kept as '
-         'Definitions; the model is tied to the code by a correspondence check on every observable '
+         'scanner refinement + rescan lemma), hence the FKM detector is (fkm_chunked, unbounded); the FOUR-point detector is chunk independent '
+         'for every signal and every partition (fourpoint_chunked, unbounded: refinement of the Cython loop to an item-level stack machine, '
+         'irreducible residual, provisional-sample monotonicity, scanner geometry); chunk_local_index addresses the right '
+         'sample and the recorder chunk list is the chunk lengths (unbounded); THREE-point chunk independence is proved bounded '
+         '(all signals over {0..3} up to length 7, every partition, vm_compute + forallb_forall) with the unbounded statement kept as a '
+         'Definition; the model is tied to the code by a correspondence check on every observable '
          '(cycle values, cycle indices, residuals, residual_index, chunks).',
     note=common.TB_NOTE + 'all C01 theorems are closed under the global context (no axioms). Model is hand-written: the correspondence harness '
          '(generators, Coq literals) is trusted; signals are integer valued in the model (exact on doubles), float rounding is covered only '
          'by the implementation-only chunked-vs-whole relation; the compiled kernel is rebuilt from extension.pyx with -O1.',
-    technique='Coq proof (refinement/induction, bounded vm_compute for 3pt/4pt) over hand-written Gallina model + vm_compute correspondence',
+    technique='Coq proof (refinement, invariants, induction; bounded vm_compute only for the 3-point detector) over hand-written Gallina model + vm_compute correspondence',
     design='6/C01')
 
 
